@@ -22,6 +22,13 @@ def V2(id, props, edits, expect="fire", rule=""):
     )
 
 
+def PV(id, props, patch):
+    """a stored behaviour-preserving diff: every listed check must stay silent"""
+    return dict(id=id, props=props if isinstance(props, list) else [props], edits=[], patch=patch, expect="silent", rule="")
+
+
+NO14 = ["C%02d" % i for i in range(1, 21) if i != 14]
+
 C3 = "cvss/cvss3.py"
 C2 = "cvss/cvss2.py"
 C4 = "cvss/cvss4.py"
@@ -422,4 +429,121 @@ VARIANTS += [
     V("n4-interactive-iter-sentinel", ALL, INT, '        while True:\n            print(METRICS_ABBREVIATIONS[metric] + ":", end=" ")\n            print("/".join(values), end=" ")\n            input_value = string_input().strip().upper()\n            if not input_value:\n                if version == 2:\n                    input_value = "ND"\n                else:\n                    input_value = "X"\n            # Match case-insensitively, but keep the spelling used by the specification\n            # (e.g. "Clear", "Green", "Amber", "Red" of the CVSS4 Provider Urgency metric).\n            matching = [value for value in values if value.upper() == input_value]\n            if matching:\n                vector.append(metric + ":" + matching[0])\n                break\n', '        def prompt():\n            print(METRICS_ABBREVIATIONS[metric] + ":", end=" ")\n            print("/".join(values), end=" ")\n            answer = string_input().strip().upper()\n            if not answer:\n                answer = "ND" if version == 2 else "X"\n            return answer\n\n        for input_value in iter(prompt, None):\n            matching = [value for value in values if value.upper() == input_value]\n            if matching:\n                break\n        vector.append(metric + ":" + matching[0])\n', "silent"),
     V2("c16-first-try-then-retry-no-nd", "C16", [(INT, 'def ask_interactively(version=3.1, all_metrics=False, no_colors=False):', 'def read_answer(prompt):\n    print(prompt, end="")\n    return string_input().strip().upper()\n\n\ndef ask_interactively(version=3.1, all_metrics=False, no_colors=False):'), (INT, '        # Ask for input\n        while True:\n            print(METRICS_ABBREVIATIONS[metric] + ":", end=" ")\n            print("/".join(values), end=" ")\n            input_value = string_input().strip().upper()\n            if not input_value:\n                if version == 2:\n                    input_value = "ND"\n                else:\n                    input_value = "X"\n            # Match case-insensitively, but keep the spelling used by the specification\n            # (e.g. "Clear", "Green", "Amber", "Red" of the CVSS4 Provider Urgency metric).\n            matching = [value for value in values if value.upper() == input_value]\n            if matching:\n                vector.append(metric + ":" + matching[0])\n                break\n', '        not_defined = "ND" if version == 2 else "X"\n        prompt = METRICS_ABBREVIATIONS[metric] + ": " + "/".join(values) + " "\n        input_value = read_answer(prompt) or not_defined\n        matching = [value for value in values if value.upper() == input_value]\n        while not matching:\n            input_value = read_answer(prompt)\n            matching = [value for value in values if value.upper() == input_value]\n        vector.append(metric + ":" + matching[0])\n')], rule="C16.semantic"),
     V2("n4-interactive-first-try-then-retry", ["C16", "C08", "C17", "C20", "C19"], [(INT, 'def ask_interactively(version=3.1, all_metrics=False, no_colors=False):', 'def read_answer(prompt):\n    print(prompt, end="")\n    return string_input().strip().upper()\n\n\ndef ask_interactively(version=3.1, all_metrics=False, no_colors=False):'), (INT, '        # Ask for input\n        while True:\n            print(METRICS_ABBREVIATIONS[metric] + ":", end=" ")\n            print("/".join(values), end=" ")\n            input_value = string_input().strip().upper()\n            if not input_value:\n                if version == 2:\n                    input_value = "ND"\n                else:\n                    input_value = "X"\n            # Match case-insensitively, but keep the spelling used by the specification\n            # (e.g. "Clear", "Green", "Amber", "Red" of the CVSS4 Provider Urgency metric).\n            matching = [value for value in values if value.upper() == input_value]\n            if matching:\n                vector.append(metric + ":" + matching[0])\n                break\n', '        not_defined = "ND" if version == 2 else "X"\n        prompt = METRICS_ABBREVIATIONS[metric] + ": " + "/".join(values) + " "\n        input_value = read_answer(prompt) or not_defined\n        matching = [value for value in values if value.upper() == input_value]\n        while not matching:\n            input_value = read_answer(prompt) or not_defined\n            matching = [value for value in values if value.upper() == input_value]\n        vector.append(metric + ":" + matching[0])\n')], "silent"),
+    # ---------------------------------------------------------------- round 5: behaviour-preserving refactorings written by independent sub-agents
+    # Extracted the argparse set-up out of main() into a new module-level function build_parser(); the three near-identical add_argument calls for -2/-3/-4 
+    PV("n5-cli-1", ["C17", "C19", "C20"], "selftest/patches/n5-cli-1.diff"),
+    # Version selection in main(): the version_mapping dict, the next(generator, None) search for the first set flag and the dict.get(..., DEFAULT_VERSION) 
+    PV("n5-cli-2", ["C17", "C19", "C20"], "selftest/patches/n5-cli-2.diff"),
+    # The two parallel if/elif chains on `version` in main() (one constructing CVSS2/CVSS3/CVSS4, one printing the title and fetching severities) are merged
+    PV("n5-cli-3", ["C17", "C19", "C20"], "selftest/patches/n5-cli-3.diff"),
+    # Score printing in main(): the index-based loop `for i, name in enumerate([...])` with try/except IndexError around scores[i]/severities[i] and the `if
+    PV("n5-cli-4", ["C17", "C19", "C20"], "selftest/patches/n5-cli-4.diff"),
+    # Control flow of main() flattened: the try/except CVSSError/else construct becomes try/except with `print(e); return` in the handler and the former els
+    PV("n5-cli-5", ["C17", "C19", "C20"], "selftest/patches/n5-cli-5.diff"),
+    # Output section of main(): a local helper show(label, *values) printing `(label + ':').ljust(PAD - 2)` followed by the values now produces the score li
+    PV("n5-cli-6", ["C17", "C19", "C20"], "selftest/patches/n5-cli-6.diff"),
+    # cvss/constants3.py: the eight 'Modified' environmental metrics (MAV..MA) are no longer spelled out in METRICS_ABBREVIATIONS, METRICS_ABBREVIATIONS_JSO
+    PV("n5-consts-1", ALL, "selftest/patches/n5-consts-1.diff"),
+    # cvss/constants2.py: extracted helper functions for building the tables - a varargs helper _names(*pairs) replaces every OrderedDict([...]) literal of 
+    PV("n5-consts-2", ALL, "selftest/patches/n5-consts-2.diff"),
+    # cvss/constants4.py: CVSS_LOOKUP_GLOBAL is no longer a 270-line literal list of (macro vector, score) pairs; the keys are produced by a generator funct
+    PV("n5-consts-3", ALL, "selftest/patches/n5-consts-3.diff"),
+    # cvss/constants4.py: the (value, name) pair lists that recur in METRICS_VALUE_NAMES are hoisted into private module-level aliases (_NOT_DEFINED, _HIGH_
+    PV("n5-consts-4", ALL, "selftest/patches/n5-consts-4.diff"),
+    # cvss/constants2.py and cvss/constants3.py: the parallel tables METRICS_ABBREVIATIONS, METRICS_ABBREVIATIONS_JSON and the three group lists (METRICS_MA
+    PV("n5-consts-5", ALL, "selftest/patches/n5-consts-5.diff"),
+    # cvss/constants4.py: MAX_COMPOSED and MAX_SEVERITY are no longer nested OrderedDict([(key, value), ...]) literals with hand-numbered level keys; two he
+    PV("n5-consts-6", ALL, "selftest/patches/n5-consts-6.diff"),
+    # from_rh_vector() and check_mandatory(), which were triplicated in cvss2.py, cvss3.py and cvss4.py, are moved into a new common base class cvss/base.py
+    PV("n5-cross-1", NO14, "selftest/patches/n5-cross-1.diff"),
+    # cvss/interactive.py: the version if/elif chain with function-level constant imports becomes select_constants() using module-level 'from . import const
+    PV("n5-cross-2", NO14, "selftest/patches/n5-cross-2.diff"),
+    # The closures us() and add_metric_to_data() nested in as_json() of CVSS2, CVSS3 and CVSS4 are extracted into a private staticmethod _json_value() and a
+    PV("n5-cross-3", NO14, "selftest/patches/n5-cross-3.diff"),
+    # parse_vector() of CVSS2 and CVSS3 validates each field with flat guard clauses instead of three nested if/else levels (same error precedence: unknown 
+    PV("n5-cross-5", NO14, "selftest/patches/n5-cross-5.diff"),
+    # The severity if/elif chains of CVSS2.severities(), CVSS3.severities() and CVSS4.compute_severity() are replaced by module-level SEVERITY_RATINGS thres
+    PV("n5-cross-6", NO14, "selftest/patches/n5-cross-6.diff"),
+    # Extracted the per-value hint construction of ask_interactively into a module-level helper _name_with_hints(version, value, name) (if/elif turned into 
+    PV("n5-inter-1", ["C16", "C08", "C17", "C19", "C20"], "selftest/patches/n5-inter-1.diff"),
+    # color() now applies its three replacements by looping over a module-level tuple table COLOR_REPLACEMENTS (same order) instead of chained .replace call
+    PV("n5-inter-2", ["C16", "C08", "C17", "C19", "C20"], "selftest/patches/n5-inter-2.diff"),
+    # The nested loops building the hinted value names became a list comprehension over values.items() calling a local closure add_hints(value, name), whose
+    PV("n5-inter-3", ["C16", "C08", "C17", "C19", "C20"], "selftest/patches/n5-inter-3.diff"),
+    # locals of ask_interactively renamed
+    PV("n5-inter-4", ["C16", "C08", "C17", "C19", "C20"], "selftest/patches/n5-inter-4.diff"),
+    # version dispatch imports the constants module itself
+    PV("n5-inter-5", ["C16", "C08", "C17", "C19", "C20"], "selftest/patches/n5-inter-5.diff"),
+    # cvss/parser.py: hoisted the candidate regular expression (compiled once as module constant _VECTOR_CANDIDATE_RE) and the 'CVSS:3.' prefix literal (_CV
+    PV("n5-parser-1", ["C13", "C19", "C20"], "selftest/patches/n5-parser-1.diff"),
+    # cvss/parser.py: extracted the try/except + version dispatch into a new module-level helper _parse_candidate(candidate) that returns the CVSS2/CVSS3 ob
+    PV("n5-parser-2", ["C13", "C19", "C20"], "selftest/patches/n5-parser-2.diff"),
+    # cvss/parser.py: the if/else that picked the constructor became a conditional expression selecting the class (cvss_class = CVSS3 if ... else CVSS2) eva
+    PV("n5-parser-3", ["C13", "C19", "C20"], "selftest/patches/n5-parser-3.diff"),
+    # cvss/parser.py: the duplicate test `cvss not in cvsss` (list membership through CVSS2/CVSS3.__eq__, which compares class and clean_vector()) was repla
+    PV("n5-parser-4", ["C13", "C19", "C20"], "selftest/patches/n5-parser-4.diff"),
+    # cvss/parser.py: the startswith if/else dispatch was replaced by a lookup in an ordered, immutable module-level prefix table _CONSTRUCTORS_BY_PREFIX = 
+    PV("n5-parser-5", ["C13", "C19", "C20"], "selftest/patches/n5-parser-5.diff"),
+    # cvss/exceptions.py: removed the redundant `pass` statement from all 16 exception classes (the docstring alone is a valid class body; names, bases, MRO
+    PV("n5-parser-6", ["C13", "C19", "C20"], "selftest/patches/n5-parser-6.diff"),
+    # CVSS2.parse_vector: the nested if/else pyramid (known metric -> known value -> not duplicate) is flattened into guard clauses in the same check order,
+    PV("n5-v2-1", NO14, "selftest/patches/n5-v2-1.diff"),
+    # Scoring equations of CVSS2: Decimal literals 0, 1, 10 and 0.0 hoisted to module constants (ZERO, ONE, TEN, LOWEST_SCORE); impact_equation and adjusted
+    PV("n5-v2-2", NO14, "selftest/patches/n5-v2-2.diff"),
+    # CVSS2.severities: the if/elif threshold chain is replaced by a lookup over a module-level ordered table SEVERITY_UPPER_BOUNDS in a new module function
+    PV("n5-v2-3", NO14, "selftest/patches/n5-v2-3.diff"),
+    # CVSS2.as_json: the two nested closures (us, add_metric_to_data) that mutated the enclosing `data` are removed; the snake-case conversion becomes modul
+    PV("n5-v2-4", NO14, "selftest/patches/n5-v2-4.diff"),
+    # constants2: METRICS_MANDATORY / TEMPORAL_METRICS / ENVIRONMENTAL_METRICS are derived by slicing list(METRICS_ABBREVIATIONS) instead of being spelled o
+    PV("n5-v2-5", NO14, "selftest/patches/n5-v2-5.diff"),
+    # CVSS2.from_rh_vector: the two try/except ValueError blocks with identical handlers are merged, the score comparison is inverted into a guard clause (r
+    PV("n5-v2-6", NO14, "selftest/patches/n5-v2-6.diff"),
+    # parse_vector(): the per-field validation (empty field, split on ':', unknown metric, unknown value) was extracted into a new helper method _split_fiel
+    PV("n5-v3out-1", NO14, "selftest/patches/n5-v3out-1.diff"),
+    # parse_vector(): the if/elif chain on the 'CVSS:3.0/' / 'CVSS:3.1/' prefix became an enumerate() loop over a prefix tuple with for/else; check_mandator
+    PV("n5-v3out-2", NO14, "selftest/patches/n5-v3out-2.diff"),
+    # severities(): the if/elif rating chain was replaced by a lookup in a hoisted module-level tuple of (upper bound, rating) pairs, performed by a new sta
+    PV("n5-v3out-3", NO14, "selftest/patches/n5-v3out-3.diff"),
+    # clean_vector(): nested-if accumulation loop rewritten as a list comprehension using dict.get(metric, 'X') with a local alias, '{0}:{1}'.format and the
+    PV("n5-v3out-4", NO14, "selftest/patches/n5-v3out-4.diff"),
+    # as_json(): the three copy-pasted blocks (base / temporal / environmental) are now driven by a tuple of groups and one local helper group_items() retur
+    PV("n5-v3out-5", NO14, "selftest/patches/n5-v3out-5.diff"),
+    # from_rh_vector(): the two try/except ValueError blocks merged into one, if/else turned into an early raise with '!=' test, the base score computed onc
+    PV("n5-v3out-6", NO14, "selftest/patches/n5-v3out-6.diff"),
+    # get_value() in cvss/cvss3.py: the per-call dict literal with the Privileges Required weights for Changed scope is hoisted to the module-level constant
+    PV("n5-v3score-1", ALL, "selftest/patches/n5-v3score-1.diff"),
+    # compute_isc_base, compute_esc, compute_modified_isc_base and compute_modified_esc no longer spell out the Decimal products; they pass lazy generator e
+    PV("n5-v3score-2", ALL, "selftest/patches/n5-v3score-2.diff"),
+    # compute_base_score and compute_environmental_score use early returns instead of if/else nesting; Round up(Minimum[..., 10]) is extracted into the stat
+    PV("n5-v3score-3", ALL, "selftest/patches/n5-v3score-3.diff"),
+    # The three copies of the impact sub score formulas in compute_isc, compute_modified_isc_30 and compute_modified_isc are extracted into module-level fun
+    PV("n5-v3score-4", ALL, "selftest/patches/n5-v3score-4.diff"),
+    # handle_scope computes into local variables and uses metrics.get('MS', 'X') with a conditional expression instead of assign-then-overwrite on self; add
+    PV("n5-v3score-5", ALL, "selftest/patches/n5-v3score-5.diff"),
+    # cvss/constants3.py: the Modified Base metric entries of METRICS_VALUES and METRICS_VALUE_NAMES are no longer spelled out but derived from the Base met
+    PV("n5-v3score-6", ALL, "selftest/patches/n5-v3score-6.diff"),
+    # parse_vector: the whole-vector checks (empty, trailing slash, prefix) and the split are extracted into a new method vector_fields() (with a local alia
+    PV("n5-v4misc-1", NO14, "selftest/patches/n5-v4misc-1.diff"),
+    # check_mandatory collects the missing metrics with a list comprehension; add_missing_optional derives the modified metric names from METRICS_MANDATORY 
+    PV("n5-v4misc-2", NO14, "selftest/patches/n5-v4misc-2.diff"),
+    # clean_vector builds its fields with one list comprehension (original.get(metric, 'X') != 'X' filter, string concatenation instead of .format, local al
+    PV("n5-v4misc-3", NO14, "selftest/patches/n5-v4misc-3.diff"),
+    # as_json: the nested helper us() becomes the module level function upper_snake_case(), the nested add_metric_to_data() closure is inlined; the result i
+    PV("n5-v4misc-4", NO14, "selftest/patches/n5-v4misc-4.diff"),
+    # from_rh_vector: splitting and float conversion move into a new staticmethod split_rh_vector() returning a 3-tuple, with the two identical try/except V
+    PV("n5-v4misc-5", NO14, "selftest/patches/n5-v4misc-5.diff"),
+    # constants4.py: METRICS_MANDATORY is derived as the leading slice of METRICS (up to and including 'SA', a new list object with the same 11 names); the 
+    PV("n5-v4misc-6", NO14, "selftest/patches/n5-v4misc-6.diff"),
+    # CVSS4.m(): the four copy-pasted `if metric == ... and selected == 'X'` tests become one lookup in a class-level table NOT_DEFINED_DEFAULTS (E->A, CR/I
+    PV("n5-v4score-1", ALL, "selftest/patches/n5-v4score-1.diff"),
+    # CVSS4.macroVector(): split into six private helper methods _eq1().._eq6() that use early returns instead of pre-initialised eqN='None' variables and i
+    PV("n5-v4score-2", ALL, "selftest/patches/n5-v4score-2.diff"),
+    # compute_base_score(): the six int(macroVector[i]) statements become one comprehension with tuple unpacking; the eight copy-pasted '''.join(str(val) fo
+    PV("n5-v4score-3", ALL, "selftest/patches/n5-v4score-3.diff"),
+    # compute_base_score(): the fourteen XX_levels dictionaries become one ordered list of (metric, levels) pairs, the fourteen copy-pasted severity_distanc
+    PV("n5-v4score-4", ALL, "selftest/patches/n5-v4score-4.diff"),
+    # Tail of compute_base_score(): the four copy-pasted 'available distance / n_existing_lower / percent / normalized severity' blocks for EQ1, EQ2, EQ3+EQ
+    PV("n5-v4score-6", ALL, "selftest/patches/n5-v4score-6.diff"),
+    # per-metric work moved into a helper class MetricQuestion with properties and an ask() method
+    PV("n5-inter-6", ["C16", "C08", "C17", "C19", "C20"], "selftest/patches/n5-inter-6.diff"),
 ]
